@@ -18,12 +18,25 @@ namespace vqt {
 class VThread;
 class VObject;
 
-struct Posted { VObject *receiver; QEvent *ev; std::function<void()> call; };
+struct Posted { VObject *receiver; QEvent *ev; std::function<void()> call; bool deferredDelete = false; };
 
+// every lock object of the model registers here, so that oracles can ask "which locks does thread T hold" and "is anybody
+// waiting for them" without knowing the private members of the code under test
+struct LockState {
+    const char *kind = "mutex";
+    int owner = -1, depth = 0;               // exclusive owner (writer)
+    std::map<int, int> readers;              // shared owners (read-write locks)
+    int waiters = 0;                         // threads parked in lock() right now
+    bool heldBy(int tid) const { return owner == tid || readers.count(tid); }
+};
 struct Globals {
     std::set<const VObject *> live;          // for context-bound connections and VPointer
     bool glibDispatcher = true;              // R2'
     long postedToDead = 0;
+    std::set<LockState *> locks;
+    VThread *lastStarted = nullptr;          // the thread object most recently start()ed (harness: "the worker")
+    std::function<void(LockState *, int /*me*/)> onContend; // a thread is about to wait for a lock somebody else holds
+    long timedLockTimeouts = 0;
 };
 Globals &G();
 VThread *mainThreadObject();
@@ -36,32 +49,55 @@ class VMutex
 {
 public:
     enum RecursionMode { NonRecursive, Recursive };
-    explicit VMutex(RecursionMode m = NonRecursive) : m_recursive(m == Recursive) { }
+    explicit VMutex(RecursionMode m = NonRecursive) : m_recursive(m == Recursive) { G().locks.insert(&st); }
+    ~VMutex() { G().locks.erase(&st); }
     void lock()
     {
-        if (!vs::active()) { m_owner = 0; m_depth++; return; }
+        if (!vs::active()) { st.owner = 0; st.depth++; return; }
         int me = vs::self();
-        vs::point("lock", [this, me] { return m_owner == -1 || (m_recursive && m_owner == me); });
-        m_owner = me; m_depth++;
+        bool contended = !(st.owner == -1 || (m_recursive && st.owner == me));
+        if (contended && G().onContend) G().onContend(&st, me);
+        st.waiters++;
+        vs::point("lock", [this, me] { return st.owner == -1 || (m_recursive && st.owner == me); });
+        st.waiters--;
+        st.owner = me; st.depth++;
     }
-    bool tryLock()
+    bool tryLock(int timeout = 0)
     {
-        if (!vs::active()) { m_owner = 0; m_depth++; return true; }
+        if (!vs::active()) { st.owner = 0; st.depth++; return true; }
         int me = vs::self();
-        vs::point("trylock");
-        if (m_owner == -1 || (m_recursive && m_owner == me)) { m_owner = me; m_depth++; return true; }
-        return false;
+        if (timeout == 0) {
+            vs::point("trylock");
+            if (st.owner == -1 || (m_recursive && st.owner == me)) { st.owner = me; st.depth++; return true; }
+            return false;
+        }
+        // timed: waits like lock(); the timeout fires only as a counted deviation (or when nothing else can run)
+        bool contended = !(st.owner == -1 || (m_recursive && st.owner == me));
+        if (contended && G().onContend) G().onContend(&st, me);
+        st.waiters++;
+        bool to = vs::point("trylock-timed", [this, me] { return st.owner == -1 || (m_recursive && st.owner == me); }, false, timeout > 0);
+        st.waiters--;
+        if (to && !(st.owner == -1 || (m_recursive && st.owner == me))) { G().timedLockTimeouts++; return false; }
+        st.owner = me; st.depth++;
+        return true;
     }
+    bool try_lock() { return tryLock(); }
+    template<class R, class P> bool try_lock_for(std::chrono::duration<R, P> d) { return tryLock(d.count() > 0 ? 1 : 0); }
     void unlock()
     {
-        if (!vs::active()) { if (m_depth > 0 && --m_depth == 0) m_owner = -1; return; }
+        if (!vs::active()) { if (st.depth > 0 && --st.depth == 0) st.owner = -1; return; }
         vs::point("unlock");
-        if (m_depth > 0 && --m_depth == 0) m_owner = -1;
+        if (st.depth > 0 && --st.depth == 0) st.owner = -1;
     }
-    int owner() const { return m_owner; }
+    bool isRecursive() const { return m_recursive; }
+    int owner() const { return st.owner; }
+    // for VWaitCondition: give the mutex up / take it back without a schedule point of its own
+    void releaseForWait() { st.depth = 0; st.owner = -1; }
+    LockState st;
 protected:
     bool m_recursive;
-    int m_owner = -1, m_depth = 0;
+private:
+    Q_DISABLE_COPY(VMutex)
 };
 class VRecursiveMutex : public VMutex
 {
@@ -81,36 +117,165 @@ private:
     Q_DISABLE_COPY(VMutexLocker)
 };
 
-class VAtomicInt
+class VReadWriteLock
 {
 public:
-    VAtomicInt(int v = 0) : m_v(v) { }
-    int loadAcquire() const { vs::point("atomic-load"); return m_v; }
-    int loadRelaxed() const { vs::point("atomic-load"); return m_v; }
-    int load() const { vs::point("atomic-load"); return m_v; }
-    void storeRelease(int v) { vs::point("atomic-store"); m_v = v; }
-    void storeRelaxed(int v) { vs::point("atomic-store"); m_v = v; }
-    int fetchAndAddOrdered(int d) { vs::point("atomic-rmw"); int o = m_v; m_v += d; return o; }
-    int fetchAndSubOrdered(int d) { vs::point("atomic-rmw"); int o = m_v; m_v -= d; return o; }
-    int fetchAndAddRelaxed(int d) { return fetchAndAddOrdered(d); }
-    int fetchAndAddAcquire(int d) { return fetchAndAddOrdered(d); }
-    int fetchAndAddRelease(int d) { return fetchAndAddOrdered(d); }
-    int fetchAndSubRelaxed(int d) { return fetchAndSubOrdered(d); }
-    int fetchAndSubAcquire(int d) { return fetchAndSubOrdered(d); }
-    int fetchAndSubRelease(int d) { return fetchAndSubOrdered(d); }
-    bool testAndSetOrdered(int e, int n) { vs::point("atomic-rmw"); if (m_v == e) { m_v = n; return true; } return false; }
+    enum RecursionMode { NonRecursive, Recursive };
+    explicit VReadWriteLock(RecursionMode = NonRecursive) { st.kind = "rwlock"; G().locks.insert(&st); }
+    ~VReadWriteLock() { G().locks.erase(&st); }
+    void lockForRead() { lockImpl(false, -1); }
+    void lockForWrite() { lockImpl(true, -1); }
+    bool tryLockForRead(int timeout = 0) { return lockImpl(false, timeout); }
+    bool tryLockForWrite(int timeout = 0) { return lockImpl(true, timeout); }
+    void unlock()
+    {
+        int me = vs::active() ? vs::self() : 0;
+        if (vs::active()) vs::point("rw-unlock");
+        if (st.owner == me) { if (--st.depth <= 0) { st.owner = -1; st.depth = 0; } }
+        else { auto it = st.readers.find(me); if (it != st.readers.end() && --it->second <= 0) st.readers.erase(it); }
+    }
+    LockState st;
+private:
+    bool can(bool write, int me) const
+    {
+        if (st.owner != -1) return st.owner == me;
+        if (!write) return true;
+        for (auto &r : st.readers) if (r.first != me) return false;
+        return true;
+    }
+    bool lockImpl(bool write, int timeout) // timeout: -1 wait forever, 0 try, >0 timed
+    {
+        int me = vs::active() ? vs::self() : 0;
+        if (vs::active()) {
+            if (timeout == 0) { vs::point("rw-trylock"); if (!can(write, me)) return false; }
+            else {
+                if (!can(write, me) && G().onContend) G().onContend(&st, me);
+                st.waiters++;
+                bool to = vs::point(write ? "rw-lock-write" : "rw-lock-read", [this, write, me] { return can(write, me); }, false, timeout > 0);
+                st.waiters--;
+                if (to && !can(write, me)) { G().timedLockTimeouts++; return false; }
+            }
+        }
+        if (write) { st.owner = me; st.depth++; } else st.readers[me]++;
+        return true;
+    }
+    Q_DISABLE_COPY(VReadWriteLock)
+};
+class VReadLocker
+{
+public:
+    explicit VReadLocker(VReadWriteLock *l) : m_l(l) { relock(); }
+    ~VReadLocker() { unlock(); }
+    void unlock() { if (m_l && m_locked) { m_l->unlock(); m_locked = false; } }
+    void relock() { if (m_l && !m_locked) { m_l->lockForRead(); m_locked = true; } }
+    VReadWriteLock *readWriteLock() const { return m_l; }
+private:
+    VReadWriteLock *m_l; bool m_locked = false;
+    Q_DISABLE_COPY(VReadLocker)
+};
+class VWriteLocker
+{
+public:
+    explicit VWriteLocker(VReadWriteLock *l) : m_l(l) { relock(); }
+    ~VWriteLocker() { unlock(); }
+    void unlock() { if (m_l && m_locked) { m_l->unlock(); m_locked = false; } }
+    void relock() { if (m_l && !m_locked) { m_l->lockForWrite(); m_locked = true; } }
+    VReadWriteLock *readWriteLock() const { return m_l; }
+private:
+    VReadWriteLock *m_l; bool m_locked = false;
+    Q_DISABLE_COPY(VWriteLocker)
+};
+class VSemaphore
+{
+public:
+    explicit VSemaphore(int n = 0) : m_avail(n) { }
+    void acquire(int n = 1) { if (vs::active()) vs::point("sem-acquire", [this, n] { return m_avail >= n; }); m_avail -= n; }
+    bool tryAcquire(int n = 1) { if (vs::active()) vs::point("sem-tryacquire"); if (m_avail < n) return false; m_avail -= n; return true; }
+    bool tryAcquire(int n, int timeout)
+    {
+        if (timeout == 0) return tryAcquire(n);
+        bool to = vs::active() ? vs::point("sem-acquire-timed", [this, n] { return m_avail >= n; }, false, timeout > 0) : false;
+        if (to && m_avail < n) return false;
+        m_avail -= n; return true;
+    }
+    void release(int n = 1) { if (vs::active()) vs::point("sem-release"); m_avail += n; }
+    int available() const { if (vs::active()) vs::point("sem-available"); return m_avail; }
+private:
+    int m_avail;
+    Q_DISABLE_COPY(VSemaphore)
+};
+class VWaitCondition
+{
+public:
+    VWaitCondition() { }
+    bool wait(VMutex *m, unsigned long ms = ULONG_MAX)
+    {
+        if (!vs::active()) return true;
+        int me = vs::self();
+        m->releaseForWait();               // atomically with going to sleep: no schedule point in between
+        m_waiting.insert(me);
+        bool to = vs::point("cond-wait", [this, me] { return m_woken.count(me) > 0; }, false, ms != ULONG_MAX);
+        m_waiting.erase(me);
+        bool woken = m_woken.erase(me) > 0;
+        m->lock();
+        return woken || !to;
+    }
+    bool wait(VMutex *m, QDeadlineTimer t) { return wait(m, t.isForever() ? ULONG_MAX : (unsigned long)t.remainingTime()); }
+    void wakeOne() { if (vs::active()) vs::point("cond-wake"); if (!m_waiting.empty()) { int t = *m_waiting.begin(); m_waiting.erase(m_waiting.begin()); m_woken.insert(t); } }
+    void wakeAll() { if (vs::active()) vs::point("cond-wake"); for (int t : m_waiting) m_woken.insert(t); m_waiting.clear(); }
+    void notify_one() { wakeOne(); }
+    void notify_all() { wakeAll(); }
+private:
+    std::set<int> m_waiting, m_woken;
+    Q_DISABLE_COPY(VWaitCondition)
+};
+
+template<class T> class VAtomicInteger
+{
+public:
+    VAtomicInteger(T v = 0) : m_v(v) { }
+    VAtomicInteger(const VAtomicInteger &o) : m_v(o.m_v) { }
+    VAtomicInteger &operator=(const VAtomicInteger &o) { m_v = o.m_v; return *this; }
+    T loadAcquire() const { vs::point("atomic-load"); return m_v; }
+    T loadRelaxed() const { vs::point("atomic-load"); return m_v; }
+    T load() const { vs::point("atomic-load"); return m_v; }
+    void storeRelease(T v) { vs::point("atomic-store"); m_v = v; }
+    void storeRelaxed(T v) { vs::point("atomic-store"); m_v = v; }
+    void store(T v) { vs::point("atomic-store"); m_v = v; }
+    T fetchAndAddOrdered(T d) { vs::point("atomic-rmw"); T o = m_v; m_v += d; return o; }
+    T fetchAndSubOrdered(T d) { vs::point("atomic-rmw"); T o = m_v; m_v -= d; return o; }
+    T fetchAndAddRelaxed(T d) { return fetchAndAddOrdered(d); }
+    T fetchAndAddAcquire(T d) { return fetchAndAddOrdered(d); }
+    T fetchAndAddRelease(T d) { return fetchAndAddOrdered(d); }
+    T fetchAndSubRelaxed(T d) { return fetchAndSubOrdered(d); }
+    T fetchAndSubAcquire(T d) { return fetchAndSubOrdered(d); }
+    T fetchAndSubRelease(T d) { return fetchAndSubOrdered(d); }
+    T fetchAndStoreOrdered(T n) { vs::point("atomic-rmw"); T o = m_v; m_v = n; return o; }
+    T fetchAndStoreRelaxed(T n) { return fetchAndStoreOrdered(n); }
+    T fetchAndStoreAcquire(T n) { return fetchAndStoreOrdered(n); }
+    T fetchAndStoreRelease(T n) { return fetchAndStoreOrdered(n); }
+    T fetchAndOrOrdered(T d) { vs::point("atomic-rmw"); T o = m_v; m_v |= d; return o; }
+    T fetchAndAndOrdered(T d) { vs::point("atomic-rmw"); T o = m_v; m_v &= d; return o; }
+    bool testAndSetOrdered(T e, T n) { vs::point("atomic-rmw"); if (m_v == e) { m_v = n; return true; } return false; }
+    bool testAndSetOrdered(T e, T n, T &cur) { vs::point("atomic-rmw"); cur = m_v; if (m_v == e) { m_v = n; return true; } return false; }
+    bool testAndSetRelaxed(T e, T n) { return testAndSetOrdered(e, n); }
+    bool testAndSetAcquire(T e, T n) { return testAndSetOrdered(e, n); }
+    bool testAndSetRelease(T e, T n) { return testAndSetOrdered(e, n); }
     bool ref() { vs::point("atomic-rmw"); return ++m_v != 0; }
     bool deref() { vs::point("atomic-rmw"); return --m_v != 0; }
-    operator int() const { return loadAcquire(); }
-    VAtomicInt &operator=(int v) { storeRelease(v); return *this; }
-    int operator++() { return fetchAndAddOrdered(1) + 1; }
-    int operator++(int) { return fetchAndAddOrdered(1); }
-    int operator--() { return fetchAndSubOrdered(1) - 1; }
-    int operator--(int) { return fetchAndSubOrdered(1); }
-    int peek() const { return m_v; } // harness only, no schedule point
+    operator T() const { return loadAcquire(); }
+    VAtomicInteger &operator=(T v) { storeRelease(v); return *this; }
+    T operator++() { return fetchAndAddOrdered(1) + 1; }
+    T operator++(int) { return fetchAndAddOrdered(1); }
+    T operator--() { return fetchAndSubOrdered(1) - 1; }
+    T operator--(int) { return fetchAndSubOrdered(1); }
+    T operator+=(T d) { return fetchAndAddOrdered(d) + d; }
+    T operator-=(T d) { return fetchAndSubOrdered(d) - d; }
+    T peek() const { return m_v; } // harness only, no schedule point
 private:
-    int m_v;
+    T m_v;
 };
+using VAtomicInt = VAtomicInteger<int>;
 template<class T> class VAtomicPointer
 {
 public:
@@ -122,7 +287,15 @@ public:
     void storeRelaxed(T *v) { vs::point("atomic-store"); m_v = v; }
     void store(T *v) { vs::point("atomic-store"); m_v = v; }
     bool testAndSetOrdered(T *e, T *n) { vs::point("atomic-rmw"); if (m_v == e) { m_v = n; return true; } return false; }
+    bool testAndSetOrdered(T *e, T *n, T *&cur) { vs::point("atomic-rmw"); cur = m_v; if (m_v == e) { m_v = n; return true; } return false; }
+    bool testAndSetRelaxed(T *e, T *n) { return testAndSetOrdered(e, n); }
+    bool testAndSetAcquire(T *e, T *n) { return testAndSetOrdered(e, n); }
+    bool testAndSetRelease(T *e, T *n) { return testAndSetOrdered(e, n); }
     T *fetchAndStoreOrdered(T *n) { vs::point("atomic-rmw"); T *o = m_v; m_v = n; return o; }
+    T *fetchAndStoreRelaxed(T *n) { return fetchAndStoreOrdered(n); }
+    T *fetchAndStoreAcquire(T *n) { return fetchAndStoreOrdered(n); }
+    T *fetchAndStoreRelease(T *n) { return fetchAndStoreOrdered(n); }
+    T *operator->() const { return loadAcquire(); }
     operator T *() const { return loadAcquire(); }
     VAtomicPointer &operator=(T *v) { storeRelease(v); return *this; }
 private:
@@ -140,16 +313,23 @@ public:
     void moveToThread(VThread *t) { m_affinity = t; }
     virtual void customEvent(QEvent *) { }
     virtual bool event(QEvent *) { return false; }
-    void deleteLater() { m_deleteLater = true; } // R9: runs only if the owning loop processes deferred deletes; modelled as "never" (a leak), see DESIGN
+    void deleteLater();                 // R9: a DeferredDelete event for the owning thread; only exec()-style loops (and a finishing thread) act on it
     bool deleteLaterRequested() const { return m_deleteLater; }
+    void setObjectName(const QString &n) { m_name = n; }
+    QString objectName() const { return m_name; }
+    void setParent(VObject *) { }
+    VObject *parent() const { return nullptr; }
 
     // the connect shapes the library uses (R8)
-    template<class S, class F> static bool connect(VObject *sender, void (S::*signal)(), VObject *context, F functor);
+    template<class S, class F> static bool connect(VObject *sender, void (S::*signal)(), VObject *context, F functor, Qt::ConnectionType = Qt::AutoConnection);
     template<class S, class F> static bool connect(VObject *sender, void (S::*signal)(), F functor);
+    static bool disconnect(VObject *sender, std::nullptr_t, VObject *context, std::nullptr_t);
+    bool disconnect(VObject *context = nullptr);
 
 private:
     VThread *m_affinity;
     bool m_deleteLater = false;
+    QString m_name;
 };
 
 template<class T> class VPointer
@@ -182,7 +362,12 @@ public:
     void terminate();
     bool isRunning() const { return m_running; }
     bool isFinished() const { return m_finished; }
-    void requestInterruption() { }
+    void requestInterruption() { m_interrupt = true; }
+    bool isInterruptionRequested() const { return m_interrupt; }
+    void setPriority(int) { }
+    void setStackSize(uint) { }
+    static int idealThreadCount() { return 4; }
+    bool m_interrupt = false;
     static void msleep(unsigned long) { vs::point("sleep", nullptr, /* voluntary */ true); }
     static void sleep(unsigned long) { vs::point("sleep", nullptr, true); }
     static void usleep(unsigned long) { vs::point("sleep", nullptr, true); }
@@ -201,8 +386,11 @@ public:
     std::vector<Ctx> finishedCtx;
     long delivered = 0, discarded = 0;
     bool inHandler = false;
+protected:
+    virtual void run() { exec(); }      // subclasses may override, as with QThread
+    int exec();                         // the thread's event loop (R2, R2', R3)
 private:
-    void run();
+    void threadBody();
     void emitFinished();
 };
 
@@ -218,6 +406,13 @@ public:
     static void exit(int = 0) { quit(); }
     static int exec();
     static void processEvents();
+    static void processEvents(int /*flags*/) { processEvents(); }
+    static void runLocalLoopUntilIdle();            // harness: a nested QEventLoop that runs until the main queue is empty (no aboutToQuit)
+    static void sendPostedEvents(VObject *receiver = nullptr, int type = 0);
+    static void removePostedEvents(VObject *receiver, int type = 0);
+    static bool closingDown() { return everCreated && !self; }
+    static bool startingUp() { return !everCreated; }
+    static bool everCreated;
     static QString applicationName() { return ::QCoreApplication::applicationName(); }
     static QString applicationVersion() { return ::QCoreApplication::applicationVersion(); }
     static QString organizationName() { return ::QCoreApplication::organizationName(); }
@@ -234,8 +429,29 @@ public:
 void postCall(VThread *target, VObject *ctx, std::function<void()> f); // queued functor bound to a context object
 bool alive(const VObject *o);
 
+// QMetaObject::invokeMethod(object, functor[, type]) — the functor shapes only
+struct VMetaObject : ::QMetaObject {     // derives from the real one so that Q_OBJECT's uses of QMetaObject::Call / tr() keep working
+    using ::QMetaObject::invokeMethod;
+    template<class F> static bool invokeMethod(VObject *ctx, F f, Qt::ConnectionType type = Qt::AutoConnection)
+    {
+        if (!ctx) return false;
+        bool same = ctx->thread() == currentThreadObject();
+        if (type == Qt::DirectConnection || (type == Qt::AutoConnection && same)) { f(); return true; }
+        if (type == Qt::BlockingQueuedConnection && !same) {
+            auto done = std::make_shared<bool>(false);
+            vs::point("post");
+            postCall(ctx->thread(), ctx, [f, done]() mutable { f(); *done = true; });
+            vs::point("blocking-invoke", [done] { return *done; });
+            return true;
+        }
+        vs::point("post");
+        postCall(ctx->thread(), ctx, std::function<void()>(f));
+        return true;
+    }
+};
+
 // ---- connect implementations
-template<class S, class F> bool VObject::connect(VObject *sender, void (S::*)(), VObject *context, F functor)
+template<class S, class F> bool VObject::connect(VObject *sender, void (S::*)(), VObject *context, F functor, Qt::ConnectionType)
 {
     if (!sender || !context) return false;
     std::function<void()> f;
